@@ -1124,6 +1124,7 @@ def run(ctx):
             "config_sets": {k: {"plain": len(v["plain"]), "filters": len(v["filt"]), "rename": len(v["rd"]), "rename_x_filters": len(v["rdfilt"]), "patch_orders": v["patch"]} for k, v in CFGSETS.items()},
         },
     )
+    ctx.coverage["outcome_classes"] = dict(sorted(classes.items()))  # all of them (the default keeps the first 60)
     ctx.coverage["rust_build"] = {k: v for k, v in paths.items()}
     ctx.coverage["pure_python_pass"] = (
         "separate forked worker processes; extension imports blocked before dulwich.objects / diff_tree were imported"
